@@ -725,7 +725,7 @@ struct Brent : Bracket_Method
 	template <class T>
 	double Minimize(T& func)
 	{
-		const int ITMAX	   = 100;
+		const int ITMAX	   = 200;
 		const double CGOLD = 0.3819660;
 		const double ZEPS  = std::numeric_limits<double>::epsilon();
 		double a, b, d = 0.0, etemp, fu, fv, fw, fx, p, q, r, tol1, tol2, u, v, w, x, xm, e = 0.0;
